@@ -81,6 +81,9 @@ func (x *Exec) specApp(st *State, fn *types.Func, e *ast.CallExpr) Val {
 		args = append(args, x.flattenArg(st, v, sig.Params().At(i).Type())...)
 	}
 	for i, d := range si.Deps {
+		if ci, ok := x.eng.compElem[d]; ok && !x.specMode {
+			x.rangeAxiom(st, d, ci.sort, ci.elem, ci.twoLevel)
+		}
 		args = append(args, x.heapGet(st, d, si.DepSorts[i]))
 	}
 	rt := sig.Results().At(0).Type()
